@@ -5,7 +5,7 @@ CLAIMED = {
         "engine": "E-CFG/E-TERM",
         "technique": "static analysis: switch accept-sets, provenance terms, dominance over Ok exit class (MIR facts)",
         "design_ref": "DESIGN.md section 4 / C18",
-        "text": "Decides statically, on the type-checked program: the check-id and filter-id tables accept exactly the assigned/supported ids (classifier found by signature; switch or comparison chains, by regions) and the filter id classified is the multi-byte value as read, without narrowing; the SHA-256 refusal, the reserved-bit tests (block flags & 0x3C, null stream-flag byte, unmasked id byte) and the end-of-input test lead only to Err and dominate every successful return of the XZ decoder. All clauses of the property are covered structurally; the accept-sets are exhaustive over the 256/2^64 id values because they are read off SwitchInt terminators.",
+        "text": "Decides statically, on the type-checked program: the check-id and filter-id tables accept exactly the assigned/supported ids (classifier found by signature; switch or comparison chains, by regions) and the filter id classified is the multi-byte value as read, without narrowing - neither at the classifier nor inside the multi-byte decoder (7 bits per byte shifted in 64 bits, shared C03.R2); the SHA-256 refusal, the reserved-bit tests (block flags & 0x3C, null stream-flag byte, unmasked id byte) and the end-of-input test lead only to Err and dominate every successful return of the XZ decoder. All clauses of the property are covered structurally; the accept-sets are exhaustive over the 256/2^64 id values because they are read off SwitchInt terminators.",
         "note": "Trusts rustc's MIR and the documented Read/BufRead contracts; `is_eof` is taken to mean fill_buf().is_empty() (checked under C13).",
     },
 }
@@ -43,7 +43,7 @@ CLAIMED["C08"] = {
     "engine": "E-CFG/E-TERM",
     "technique": "static analysis: per-arm read widths, provenance of the stored size, dominance/path checks of size test, final equality and end-marker acceptance (MIR facts)",
     "design_ref": "DESIGN.md section 4 / C08",
-    "text": "Decides statically: LzmaParams.unpacked_size and DecoderState.unpacked_size are written (or lent mutably) only by read_header / the constructors / set_unpacked_size; read_header consumes 13/13/5 bytes per option (resolved read widths, through local helpers); the size in effect depends only on the header field resp. only on the caller's value per option arm; the size test opens every round of the decoding loop (ordering comparison); with a size in effect every Finish-mode success (from the Some edge of every test of the size, including the end-marker exit of the loop) passes a test whose truth table is produced == size and whose mismatch edge is Err; the streaming API's final pass is skipped by allow_incomplete only and its header staging loses nothing whatever the option's header length; the end marker is accepted only behind distance == 0xFFFF_FFFF and a true is_finished_ok (code == 0 and end of input), and that test exists in the symbol decoder on rep[0] (shared C01.R2 clause); match lengths handed to the window never depend on the size in effect. Declined: that the produced count equals the declared one for a given stream (value-level).",
+    "text": "Decides statically: LzmaParams.unpacked_size and DecoderState.unpacked_size are written (or lent mutably) only by read_header / the constructors / set_unpacked_size (or its two callers), and the setter stores its argument unchanged; read_header consumes 13/13/5 bytes per option (resolved read widths, through local helpers); the size in effect depends only on the header field resp. only on the caller's value per option arm; the size test opens every round of the decoding loop (ordering comparison); with a size in effect every Finish-mode success (from the Some edge of every test of the size, including the end-marker exit of the loop) passes a test whose truth table is produced == size and whose mismatch edge is Err; the streaming API's final pass is skipped by allow_incomplete only and its header staging loses nothing whatever the option's header length; the end marker is accepted only behind distance == 0xFFFF_FFFF and a true is_finished_ok (code == 0 and end of input), and that test exists in the symbol decoder on rep[0] (shared C01.R2 clause); match lengths handed to the window never depend on the size in effect. Declined: that the produced count equals the declared one for a given stream (value-level).",
     "note": "Trusts rustc's MIR.",
 }
 CLAIMED["C11"] = {
@@ -79,7 +79,7 @@ CLAIMED["C10"] = {
     "engine": "E-CFG/E-TERM",
     "technique": "static analysis: provenance of the limit argument, who-may-grow enumeration with dominance of the limit test, equality of tested and grown length, who-reads enumeration, limit taint against the guards of every error construction",
     "design_ref": "DESIGN.md section 4 / C10",
-    "text": "Decides statically: at both constructions of the circular window (one-shot and streaming) the limit is Options.memlimit.unwrap_or(usize::MAX) with no cast, clamp or arithmetic; every call that can grow the window buffer sits on the true edge of new_len <= memlimit whose other edge is Err, and the grown length is exactly the tested index + 1; the limit is read by that guard only and only when the buffer must grow (so a sufficient limit leaves the control flow unchanged); Options.memlimit is read only by functions that construct a window; no error is built behind a test on a limit-derived value (taint through fields by name and parameters by position) except at the growth test itself. Declined: heap measurements.",
+    "text": "Decides statically: at both constructions of the circular window (one-shot and streaming) the limit is Options.memlimit.unwrap_or(usize::MAX) with no cast, clamp or arithmetic; every call that can grow the window buffer sits on the true edge of new_len <= memlimit whose other edge is Err, and the grown length is exactly the tested index + 1; the limit is read by that guard only and only when the buffer must grow (so a sufficient limit leaves the control flow unchanged); Options.memlimit is read only by functions that construct a window; no error is built behind a test on a limit-derived value (taint through fields by name and parameters by position) except at the growth test itself; the ring wraps exactly at dict_size and grows only within [index + 1, dict_size] (shared C01.R4), so it never holds more than min(dictionary size, bytes produced). Declined: heap measurements.",
     "note": "Trusts rustc's MIR.",
 }
 CLAIMED["C17"] = {
@@ -95,14 +95,14 @@ CLAIMED["C01"] = {
     "engine": "E-CFG/E-TERM",
     "technique": "static analysis: header-field map, symbol-automaton constants, context-index terms, who-writes enumeration of the circular window, table shapes (MIR facts, provenance terms)",
     "design_ref": "DESIGN.md section 4 / C01",
-    "text": PARTIAL + "the properties byte is split as lc = b % 9, lp = b / 9 % 5, pb = b / 45 with the only rejection b >= 225 and the dictionary size in effect is max(header field, 4096) (gated evaluation on 10 values); the 12-state automaton (each store to `state` evaluated as a function of the old state, per symbol kind read off the dominating decision bits), the length coder per kind, the repeat-distance rotations (replayed in execution order), the +2 / end-marker terms; the nine steps of literal decoding and the decoded distance for all 64 slots (evaluation with symbolic sub-decodings); every DecoderState field is written only by the symbol-decoder family, the constructor and reset_state; the window's distance guards reject exactly dist > bound; every window is constructed with params.dict_size unmodified; cursor/len/buf of the circular window are written only by append_literal/set (wrap at dict_size), the buffer grows to a length in [index+1, dict_size], finish slices [0, cursor), last_or reads the default iff nothing was produced and otherwise cell (dict_size + cursor - 1) % dict_size (evaluated over cursor x produced x dict_size); probability tables have the format's shapes and 0x400 initialiser; every range-decoder step term (bound, bit test, both probability updates for all 2047 probabilities, normalisation, direct bits, bit-tree recurrences and indices, length-coder offsets, initial state) evaluates to the reference formula. Declined (not static): that the range-coder arithmetic yields the encoder's bits, i.e. byte-exact output - this needs value-level reasoning over 2^32-range arithmetic on every path.",
+    "text": PARTIAL + "the properties byte is split as lc = b % 9, lp = b / 9 % 5, pb = b / 45 with the only rejection b >= 225 and the dictionary size in effect is max(header field, 4096) (gated evaluation on 10 values); the 12-state automaton (each store to `state` evaluated as a function of the old state, per symbol kind read off the dominating decision bits), the length coder per kind, the repeat-distance rotations (replayed in execution order), the +2 / end-marker terms; the nine steps of literal decoding and the decoded distance for all 64 slots (evaluation with symbolic sub-decodings); every DecoderState field is written only by the symbol-decoder family, the constructor and reset_state; the window's distance guards reject exactly dist > bound; every window is constructed with params.dict_size unmodified; cursor/len/buf of the circular window are written only by append_literal/set (wrap at dict_size), the buffer grows to a length in [index+1, dict_size], finish slices [0, cursor), last_or reads the default iff nothing was produced and otherwise cell (dict_size + cursor - 1) % dict_size, last_n(dist) reads cell (dict_size + cursor - dist) % dict_size (both evaluated over cursor x distance / produced x dict_size); probability tables have the format's shapes and 0x400 initialiser; every range-decoder step term (bound, bit test, both probability updates for all 2047 probabilities, normalisation, direct bits, bit-tree recurrences and indices, length-coder offsets, initial state) evaluates to the reference formula. Declined (not static): that the range-coder arithmetic yields the encoder's bits, i.e. byte-exact output - this needs value-level reasoning over 2^32-range arithmetic on every path.",
     "note": "Trusts rustc's MIR; the constants in rules/C01.py transcribe the LZMA specification.",
 }
 CLAIMED["C02"] = {
     "engine": "E-CFG/E-TERM",
     "technique": "static analysis: reset-class table read off the SwitchInt on (status >> 5) & 3, size-field provenance terms, control dependence of resets on the flags, order of the produced-length read vs the dictionary reset, sibling agreement reset_state/constructor (MIR facts)",
     "design_ref": "DESIGN.md section 4 / C02",
-    "text": PARTIAL + "for all 128 control bytes 0x80..0xFF the dictionary reset / state reset / read of new properties happen exactly for >= 0xE0 / >= 0xA0 / >= 0xC0 (gated evaluation of the decisions found by what they guard - independent of how the table is spelled) and status 1/2 map to uncompressed chunks with/without dictionary reset; the chunk parser (with its classification helpers) builds an error only for control byte < 0x80, properties >= 225 or lc + lp > 4; the output target and the packed-size limit evaluate to the format's terms on grids that include the 0xFFFF carry cases; the accumulating window's accessors read buf[len-1], buf[len-dist] and copy from offset len-dist upwards; unpacked/packed/uncompressed sizes are the format's big-endian terms; the window is reset iff reset_dict, the decoder state iff reset_state with new-or-stored properties, and nothing else in the chunk parser modifies the state; the output target reads the produced length after the dictionary reset; a state reset re-initialises every field of the decoder state; uncompressed bytes extend the same history and advance the produced length by the slice length. Declined: the payload of compressed chunks (C01's declined part).",
+    "text": PARTIAL + "for all 128 control bytes 0x80..0xFF the dictionary reset / state reset / read of new properties happen exactly for >= 0xE0 / >= 0xA0 / >= 0xC0 (gated evaluation of the decisions found by what they guard - independent of how the table is spelled) and status 1/2 map to uncompressed chunks with/without dictionary reset; the chunk parser (with its classification helpers) builds an error only for control byte < 0x80, properties >= 225 or lc + lp > 4; the output target and the packed-size limit evaluate to the format's terms on grids that include the 0xFFFF carry cases; the accumulating window's accessors read buf[len-1], buf[len-dist] and copy from offset len-dist upwards; unpacked/packed/uncompressed sizes are the format's big-endian terms; the window is reset iff reset_dict and a reset empties it (buffer cleared, length zeroed on every path, shared C09.R4), the decoder state iff reset_state with new-or-stored properties, and nothing else in the chunk parser modifies the state; the output target reads the produced length after the dictionary reset; a state reset re-initialises every field of the decoder state; uncompressed bytes extend the same history and advance the produced length by the slice length. Declined: the payload of compressed chunks (C01's declined part).",
     "note": "Trusts rustc's MIR; the table in rules/C02.py transcribes the LZMA2 format.",
 }
 CLAIMED["C03"] = {
